@@ -1,9 +1,89 @@
 import Driver.Loop
+import Midgard.Model.Rinex3Obs
+import Midgard.Model.Rinex2Obs
+import Midgard.Spec.Rinex
 
-/-! Driver for C11: placeholder until the model is written. -/
+/-! Driver for C11: `c11 parse3 <rate|-> <hex text>`, `c11 parse2 …` (the parser models) and
+`c11 render3|render2 <records>` (the RINEX 3.04 / 2.11 spec renderer). -/
 namespace Driver.C11
+open Midgard.Proto Midgard.Text Midgard.ChainParser Midgard.RinexObs
+
+def hx (s : Str) : String := encodeHex (asString s)
+
+def showErr : Err → String
+  | .notUnique => "ERR:not-unique"
+  | .other => "ERR:other"
+
+def optRat : Option Rat → String
+  | none => "nan"
+  | some q => showRat q
+
+def col (c : Col) : String := ",".intercalate (c.map optRat)
+
+def leafTok : Leaf → String
+  | .text s => s!"T:{hx s}"
+  | .num q => s!"Q:{showRat q}"
+  | .int i => s!"I:{i}"
+  | .list l => s!"L:{",".intercalate (l.map hx)}"
+  | .empty => "E:"
+
+def metaTokens (m : Meta) : List String :=
+  m.map fun (p, l) => s!"m|{"|".intercalate (p.map hx)}={leafTok l}"
+
+def dataTokens (d : Data) (timeScale : String) : List String :=
+  (d.obs.map fun (t, c) => s!"d|obs|{hx t}=N:{col c}") ++
+  (d.lli.map fun (t, c) => s!"d|cycle_slip|{hx t}=N:{col c}") ++
+  (d.snr.map fun (t, c) => s!"d|signal_strength|{hx t}=N:{col c}") ++
+  (match d.pos with
+   | some p => [s!"d|pos=N:{",".intercalate (p.map showRat)}"]
+   | none => []) ++
+  [s!"d|time=L:{",".intercalate (d.time.map hx)}",
+   s!"d|epoch_flag=N:{",".intercalate (d.epochFlag.map toString)}",
+   s!"d|rcv_clk_offset=N:{col d.clk}",
+   s!"d|text|station=L:{",".intercalate (d.station.map hx)}",
+   s!"d|text|system=L:{",".intercalate (d.system.map hx)}",
+   s!"d|text|satellite=L:{",".intercalate (d.satellite.map hx)}",
+   s!"d|text|satnum=L:{",".intercalate (d.satnum.map hx)}",
+   s!"x|time_scale=T:{encodeHex timeScale}",
+   s!"ds|num_obs=I:{d.time.length}",
+   s!"ds|time=IL:{",".intercalate (d.timeMicros.map toString)}",
+   s!"ds|time_scale=T:{encodeHex timeScale}"]
+
+def parseRate? (s : String) : Option (Option Rat) :=
+  if s = "-" then some none else (parseRat? s).map some
+
+def parseRecord? (tok : String) : Option (String × List Str) :=
+  match tok.splitOn ":" with
+  | [k, cells] =>
+    if cells = "" then some (k, [])
+    else do
+      let cs ← (cells.splitOn ",").mapM decodeHex?
+      pure (k, cs.map String.toList)
+  | _ => none
 
 def handle : List String → Option String
+  | ["c11", "parse3", r, h] => do
+    let rate ← parseRate? r
+    let text ← decodeHex? h
+    match Midgard.Rinex3Obs.parseText rate text.toList with
+    | .ok s => pure (" ".intercalate (metaTokens s.metaD ++ dataTokens s.data s.timeScale))
+    | .noRows => pure "ERR:no-rows"
+    | .error e => pure (showErr e)
+  | ["c11", "parse2", r, h] => do
+    let rate ← parseRate? r
+    let text ← decodeHex? h
+    match Midgard.Rinex2Obs.parseText rate text.toList with
+    | .ok s => pure (" ".intercalate (metaTokens s.metaD ++ dataTokens s.data s.timeScale))
+    | .noRows => pure "ERR:no-rows"
+    | .error e => pure (showErr e)
+  | "c11" :: "render3" :: recs => do
+    let rs ← recs.mapM parseRecord?
+    let text ← Midgard.Spec.Rinex.renderFile rs
+    pure (hx text)
+  | "c11" :: "render2" :: recs => do
+    let rs ← recs.mapM parseRecord?
+    let text ← Midgard.Spec.Rinex.renderFile rs
+    pure (hx text)
   | _ => none
 
 end Driver.C11
